@@ -28,6 +28,7 @@ RULE = ('correspondence cases = (entry point, xi, periods (optionally one leadin
         'the third-series relation and the T=0 row are also evaluated directly on the implementation outputs; '
         'interval point checks: generated nj_* formulas at (xi, w, dt) vs the implementation floats (grid xi x T/dt incl. xi = .999, .9999 and random points incl. xi in (.995, .99995)), tolerance 1e-10*scale + 4096*eps*cancellation terms; '
         'rounding-clause sweep (thorough tier / search) over the same xi incl. near-critical and T/dt incl. 6500 (w dt just below 1e-3); '
+        'period lists consisting of the leading 0 only ([0], (0,), np.array([0.0])) at all three entry points (one row: u = v = 0, a = -record); '
         'non-trivial = record not identically zero and at least one oscillator row')
 TRUSTED = [
     'Coq 8.16.1 kernel + vm_compute; Coquelicot (derivatives), Interval (point enclosures)',
@@ -269,6 +270,18 @@ def call_entry(entry, rec, dt, periods, xi):
         s.response_series(xi=xi)
         s.response_times = np.array(periods)
         return s.response_series(xi=xi)
+    if entry in ZERO_ONLY_ENTRIES:
+        # the period list consists of the leading 0 only (no oscillator row at all), in the container forms callers write
+        fn, form = ZERO_ONLY_ENTRIES[entry]
+        assert [float(P) for P in periods] == [0.0]
+        zp = {'list': [0], 'tuple': (0,), 'array': np.array([0.0])}[form]
+        if fn == 'sdof.response_series':
+            return sdof.response_series(rec, dt, zp, xi)
+        if fn == 'sdof.nigam_and_jennings_response':
+            return sdof.nigam_and_jennings_response(rec, dt, zp, xi)
+        if fn == 'AccSignal.response_series[preset]':
+            return eqsig.AccSignal(rec, dt, response_times=zp).response_series(xi=xi)
+        return eqsig.AccSignal(rec, dt).response_series(response_times=zp, xi=xi)
     if entry in PERIOD_DTYPE_ENTRIES:
         p32 = np.array(periods, dtype=np.float32)      # the caller passes as_float32_values(...): no rounding here
         if entry == 'sdof.response_series[float32 periods]':
@@ -304,6 +317,21 @@ NARROW_DTYPE_ENTRIES = {
 HISTORY_ENTRY = 'AccSignal.response_series[second call, response_times changed in between]'
 PERIOD_DTYPE_ENTRIES = ['sdof.response_series[float32 periods]', 'sdof.nigam_and_jennings_response[float32 periods]',
                         'AccSignal.response_series[arg, float32 periods]']
+
+
+# period lists that consist of the leading 0 ONLY: displacement and velocity zero, third series = sign-flipped record, one row.
+# entry -> (function, container form of the period list)
+ZERO_ONLY_ENTRIES = {
+    'sdof.response_series[periods=[0]]': ('sdof.response_series', 'list'),
+    'sdof.nigam_and_jennings_response[periods=np.array([0.0])]': ('sdof.nigam_and_jennings_response', 'array'),
+    'AccSignal.response_series[response_times=[0]]': ('AccSignal.response_series', 'list'),
+    'sdof.response_series[periods=(0,)]': ('sdof.response_series', 'tuple'),
+    'sdof.nigam_and_jennings_response[periods=[0]]': ('sdof.nigam_and_jennings_response', 'list'),
+    'AccSignal.response_series[response_times=np.array([0.0])]': ('AccSignal.response_series', 'array'),
+    'sdof.response_series[periods=np.array([0.0])]': ('sdof.response_series', 'array'),
+    'sdof.nigam_and_jennings_response[periods=(0,)]': ('sdof.nigam_and_jennings_response', 'tuple'),
+    'AccSignal.response_series[preset response_times=(0,)]': ('AccSignal.response_series[preset]', 'tuple'),
+}
 
 
 def as_float32_values(periods):
@@ -447,6 +475,14 @@ def run(rep, rng, tier):
         periods = gen_periods(rng, dt, lead0)[:4]
         xi = rng.choice(XIS)
         tol_case(entry, rec, dt, periods, xi, '%s/%s/%s' % (entry, kind, 'lead0' if lead0 else 'nolead'))
+    # period lists consisting of the leading 0 only (no oscillator): every entry point x container form
+    for k, entry in enumerate(ZERO_ONLY_ENTRIES if tier == 'quick' else list(ZERO_ONLY_ENTRIES) * 4):
+        n = gens.small_len(rng, 2, 120)
+        rec, kind = gen_record(rng, n)
+        if not np.any(rec != 0):
+            rec[rng.randrange(n)] = 1.0
+        dt = rng.choice([0.01, 0.005, 0.02, 0.25])
+        tol_case(entry, rec, dt, [0.0], rng.choice(XIS), '%s/%s/zero-only' % (entry, kind))
     # injected dyadic coefficients: the implementation's loop runs on exactly representable numbers -> exact comparison
     real = sdof.compute_a_and_b
     try:
